@@ -105,8 +105,11 @@ pub fn plan(prop: &str, tier: &str) -> Option<Plan> {
             if quick {
                 b.add_cases("gen/rc", e(0).set("k1", 1).set("k2", 1).set("init", 2).set("pre", 2), crate::scen::gen::rc_cases(1, 1), 12);
             } else {
+                // (2+2 letters x 4 states did not finish in 900 s: 2+1 and 1+2 do)
                 for (init, pre) in [(1, 2), (2, 2), (2, 3), (1, 0)] {
-                    b.add_cases("gen/rc", e(0).set("k1", 2).set("k2", 2).set("init", init).set("pre", pre), crate::scen::gen::rc_cases(2, 2), 80);
+                    for (k1, k2) in [(2, 1), (1, 2)] {
+                        b.add_cases("gen/rc", e(0).set("k1", k1).set("k2", k2).set("init", init).set("pre", pre), crate::scen::gen::rc_cases(k1 as usize, k2 as usize), 40);
+                    }
                 }
             }
             for u in b.units.iter_mut().filter(|u| u.scenario == "gen/rc") {
@@ -125,7 +128,7 @@ pub fn plan(prop: &str, tier: &str) -> Option<Plan> {
             b.add("rc/reader-vs-root-reclaim", all, &[&[("age", 0)], &[("age", 4)]], bq);
             b.add("rc/reader-second-path", all, &[&[("age", 4), ("pre", 2)]], if quick { 2 } else { 3 });
             b.add("rc/reader-second-path", if quick { few } else { all }, &[&[("age", 0), ("pre", 2)], &[("age", 4), ("pre", 3)]], if quick { 2 } else { 3 });
-            b.add_sliced("rc/stalled-dropper", if quick { &[0i64, 11][..] } else { all }, &[&[("k", 0)]], 2, if quick { 8 } else { 4 });
+            b.add_sliced("rc/stalled-dropper", if quick { &[0i64, 11][..] } else { &[0i64, 1, 2, 5, 11, 13, 14, 15, 65535][..] }, &[&[("k", 0)]], 2, if quick { 8 } else { 4 });
             // six threads: the dropper is pinned, its stamp one epoch behind, one more advance follows
             if !quick {
                 b.add_sliced("rc/stalled-dropper", few, &[&[("k", 0), ("split", 1)]], 2, 16);
@@ -186,7 +189,7 @@ pub fn plan(prop: &str, tier: &str) -> Option<Plan> {
             b.add("rc/weak-through-zero", all, &[&[("destructed", 1)], &[("destructed", 0)], &[("destructed", 2), ("pre", 2)], &[("destructed", 2), ("pre", 3)], &[("destructed", 1), ("dropin", 1)]], bq);
             b.add("rc/last-weak-vs-destruct", all, &[&[("pre", 0)], &[("pre", 2)], &[("pre", 3)]], bq);
             b.add("rc/weak-many-shares", all, &[], if quick { 2 } else { 4 });
-            b.add("rc/first-downgrade", if quick { few } else { all }, &[&[("many", 0)], &[("many", 1)]], if quick { 2 } else { 3 });
+            b.add("rc/first-downgrade", few, &[&[("many", 0)], &[("many", 1)]], if quick { 2 } else { 3 });
             {
                 let from = b.units.len();
                 if quick {
@@ -195,7 +198,9 @@ pub fn plan(prop: &str, tier: &str) -> Option<Plan> {
                     }
                 } else {
                     for (init, pre) in [(0, 2), (1, 2), (2, 2), (2, 3), (3, 2), (4, 2), (4, 3)] {
-                        b.add_cases("gen/weak", e(0).set("k1", 2).set("k2", 2).set("init", init).set("pre", pre), crate::scen::gen::weak_cases(2, 2), 80);
+                        for (k1, k2) in [(2, 1), (1, 2)] {
+                            b.add_cases("gen/weak", e(0).set("k1", k1).set("k2", k2).set("init", init).set("pre", pre), crate::scen::gen::weak_cases(k1 as usize, k2 as usize), 40);
+                        }
                     }
                 }
                 b.units[from..].iter_mut().for_each(|u| u.bound = 2);
@@ -226,7 +231,9 @@ pub fn plan(prop: &str, tier: &str) -> Option<Plan> {
             }
             if !quick {
                 for (init, pre) in [(2, 2), (3, 2)] {
-                    b.add_cases("gen/rc", e(5).set("k1", 2).set("k2", 2).set("init", init).set("pre", pre).set("claim", 5), crate::scen::gen::rc_cases(2, 2), 80);
+                    for (k1, k2) in [(2, 1), (1, 2)] {
+                        b.add_cases("gen/rc", e(5).set("k1", k1).set("k2", k2).set("init", init).set("pre", pre).set("claim", 5), crate::scen::gen::rc_cases(k1 as usize, k2 as usize), 40);
+                    }
                 }
                 for u in b.units.iter_mut().filter(|u| u.scenario == "gen/rc") {
                     u.bound = 2;
@@ -253,7 +260,9 @@ pub fn plan(prop: &str, tier: &str) -> Option<Plan> {
                             // handles released with Rc::finalize inside a critical section
                             b.add_cases("seq/graphs", e(e0).set("shape", shape).set("age", age).set("fin", 1), seq::graph_cases(shape), 500);
                             // edges released by AtomicRc::drop instead of pop_edges (none / only slot 0 popped)
-                            for pop in [0, 1] {
+                            // (4, 7: as 0 and 3, and every destructor enters a critical section
+                            // and flushes - it re-enters the collector that is running it)
+                            for pop in [0, 1, 4, 7] {
                                 b.add_cases("seq/graphs", e(e0).set("shape", shape).set("age", age).set("pop", pop), seq::graph_cases(shape), 500);
                             }
                         }
@@ -273,6 +282,8 @@ pub fn plan(prop: &str, tier: &str) -> Option<Plan> {
             let bq = if quick { 2 } else { 4 };
             b.add("rc/concurrent-release", all, &[&[("shape", 0)], &[("shape", 1)], &[("shape", 2)]], bq);
             b.add("rc/dag-shared-child", all, &[&[("age", 4)], &[("age", 0)]], bq);
+            b.add("rc/dag-shared-child", few, &[&[("age", 4), ("dpop", 7)]], bq);
+            b.add("rc/concurrent-release", few, &[&[("shape", 0), ("dpop", 7)], &[("shape", 1), ("dpop", 7)]], bq);
             b.add("rc/last-weak-vs-destruct", all, &[&[("pre", 0)], &[("pre", 2)]], bq);
             b.add("rc/weak-through-zero", all, &[&[("destructed", 1), ("dropin", 1)], &[("destructed", 1), ("dropin", 0)], &[("destructed", 2), ("dropin", 1)]], bq.max(3));
             b.add("rc/weak-many-shares", all, &[], bq);
@@ -393,6 +404,8 @@ pub fn plan(prop: &str, tier: &str) -> Option<Plan> {
             }
             if prop == "C14" {
                 b.add("rc/long-disposal", &[0, 14], &[&[("n", 130)]], if quick { 1 } else { 2 });
+                // every destructor of the chain pins and flushes: re-pins inside the cascade
+                b.add("rc/long-disposal", &[0], &[&[("n", 130), ("dpop", 7)]], 1);
                 b.goal("rc/long-disposal", "repinned");
                 b.goal("rc/long-disposal", "cascade-child-destructed");
             }
